@@ -36,7 +36,10 @@ static void pad_case(size_t len, size_t bs, size_t cap, int use_p, int pat)
     size_t padded = bs ? len + (bs - len % bs) : 0, got = 0xdeadbeef, i, un = 0;
     /* the model decides first; a refused call only needs the data and the stated capacity to exist */
     int    r, want = (bs == 0 || padded > cap || padded < len) ? -1 : 0;
-    size_t need = (want == 0 ? (padded > cap ? padded : cap) : (len > cap ? len : cap)) + 64;
+    /* capacities far above the padded length ("no limit": 2^32, SIZE_MAX, SIZE_MAX - address ...) are claimed, not allocated: the call may
+     * write only up to the padded length, which the 0xEE area after it shows */
+    size_t capm = (bs && cap > padded + 4096 && padded >= len) ? padded + 4096 : cap;
+    size_t need = (want == 0 ? (padded > capm ? padded : capm) : (len > capm ? len : capm)) + 64;
     char   key[128];
     if (need > work_sz) { work_sz = need * 2; work = realloc(work, work_sz); orig = realloc(orig, work_sz); }
     vf_pat(work, len, pat, 11);
@@ -74,6 +77,13 @@ static void do_len(long L)
         if (b <= MAXBS) {
             for (cap = 0; cap <= padded + 1; cap++) pad_case(len, b, cap, (int) (cap & 1), (int) ((len + cap) % PAT_N));
             pad_case(len, b, padded, 0, PAT_F); pad_case(len, b, padded, 1, PAT_Z);
+            if (b >= 1) {   /* huge capacities: the result fits, so the call must succeed exactly as with capacity == padded */
+                size_t hc[10], nh = 0;
+                pad_case(len, b, padded, 0, PAT_C);          /* makes sure `work` is allocated before its address is used below */
+                hc[nh++] = (size_t) 1 << 31; hc[nh++] = (size_t) 1 << 32; hc[nh++] = ((size_t) 1 << 32) + 1; hc[nh++] = (size_t) 1 << 63; hc[nh++] = SIZE_MAX / 2;
+                hc[nh++] = SIZE_MAX - 4096; hc[nh++] = SIZE_MAX - (size_t) (uintptr_t) work; hc[nh++] = SIZE_MAX - (size_t) (uintptr_t) work + 1; hc[nh++] = SIZE_MAX - 1; hc[nh++] = SIZE_MAX;
+                for (k = 0; k < nh; k++) if (b <= 17 || b == MAXBS || k % 3 == (len + b) % 3) pad_case(len, b, hc[k], (int) ((k + len) & 1), (int) ((len + k) % PAT_N));
+            }
         } else {
             size_t caps[12] = { 0, 1, len ? len - 1 : 0, len, len + 1, padded - 1, padded, padded + 1, padded / 2,
                                 len > 3 ? 3 : 0, padded + 17, len / 2 };
